@@ -1,6 +1,7 @@
 package main
 
-// gotrans: a small, general translator from a loop-free, side-effect-free subset of Go
+// gotrans: a small, general translator from a subset of Go (pure functions, loops with a
+// stated bound, and effects on the receiver / arguments made explicit as extra results)
 // to Gallina.  It is applied (gotrans_apply.go) to the small pure functions of robfig/soy
 // that the hand-written Coq models mirror; every translated function is emitted as
 //
@@ -20,13 +21,23 @@ package main
 //     switch x.(type) over a data.Value (the bound variable may not be used)
 //     var x [T] [= e]    x := e    x = e    x op= e    x++    x--   (locals only: lets)
 //     v, ok := m[k]      _, ok := v.(data.T)
-//     for _, x := range xs { if cond { return e } }   (first match, over a slice)
+//     for _, x := range xs { if cond { return e } }   (first match, over a slice: List.find)
 //     for i := 0; i < len(s); i++ { if cond(s[i]) { return e } }  (same, over the bytes)
+//     every other for / range-over-a-slice loop, with break and continue (LOOPS below)
+//     x.f = e   x.f op= e   x.f++   m[k] = e   s[i] = e   s[i].f = e   *p = e   (STATE below)
+//     calls of methods that do such things, as statements or as the whole right-hand side
+//     append(s, x...)   make(map[K]V)   make([]T, 0, n)   map[K]V{k: v, ...}   T{...} for a struct of the subset
+//     results of type error, as a bool "err != nil" (errors.New(msg) = true after evaluating msg, nil = false,
+//       err != nil / err == nil; what the error says is not modelled)
+//     r, size := utf8.DecodeRuneInString(s)   n, err := strconv.ParseInt(s, base, bits)   string([]rune)
+//       (library functions that stay parameters: f_utf8_DecodeRuneInString, f_strconv_ParseInt, f_string_runes;
+//        likewise strings.ToLower / ToUpper, x.M() on an interface parameter, v.String() of a data.Value)
+//     log.Print* (skipped: the process log is not modelled), hooks named in the configuration
 //     panic(...)  and calls of methods whose own body ends in panic (t.errorf ...)
 //   over bool, the integer types (int, rune, byte, uint32, uint64, named ones such as
 //   itemType, ast.Pos, ast.AutoescapeType), string, []byte, slices and maps of those,
 //   struct parameters / receivers that are only read (field x.f becomes parameter v_x_f),
-//   and data.Value as an abstract type V (kind test through a parameter v_kind : V -> Z,
+//   and data.Value as an abstract type V (kind test through a parameter val_kind : V -> Z,
 //   data.Undefined{} / data.Null{} through parameters).
 //   Expressions: == != < <= > >= && || ! + - * / % & | ^ << >> &^, conversions, len,
 //   s[i], m[k] for parameter maps and package-level map literals, rune / string / int
@@ -37,7 +48,7 @@ package main
 //   unicode.IsLetter / IsDigit / IsSpace as function parameters uni_letter ...).
 //
 // SEMANTICS
-//   * every Go integer is a Coq Z.  Comparisons and constants need no care.  + - * and
+//   * int and uint are 64 bits wide (the platforms the harness runs on); every Go integer is a Coq Z.  Comparisons and constants need no care.  + - * and
 //     unary - on a typed integer are emitted with the wrap of that type written out
 //     (go_wrap_s 64 (...) / go_wrap_u 32 (...)), << on every integer type likewise, a
 //     narrowing conversion wraps, / and % are accepted only with a non-zero constant
@@ -50,8 +61,52 @@ package main
 //   * maps are association lists (first match); package-level map literals are emitted as
 //     src_<pkg>_<var> in source order (Go rejects duplicate constant keys).
 //   * local variables and parameters are named v_<name>[_<version>]: an assignment is a
-//     new let.  Control flow is translated by continuation: `if c { A }; rest` becomes
-//     `if c then [A; rest] else [rest]`.
+//     new let.  Everything else the translator binds lives in other name spaces (val_*, uni_*,
+//     f_*, m_*, fld_*, o<n>, V), so no Go name can capture it.  Control flow is translated by continuation: `if c { A }; rest`
+//     becomes `if c then [A; rest] else [rest]` when a branch can leave (return, break, continue, panic); when no branch
+//     can, the if is an expression whose value is the tuple of the variables its branches assign, and rest follows once:
+//     `let '(x, y) := (if c then [A; (x', y')] else (x, y)) in [rest]` (go_bind instead of let when A can panic).
+//
+// LOOPS
+//   A loop becomes a top-level Fixpoint <function>_loop<k> (k = number of the loop in source
+//   order; _v2 ... when the same loop is reached with different bindings).  Its parameters are,
+//   in this order: the fuel, the implicit parameters, the variables the loop only reads (in
+//   declaration order), the variables it assigns (its state, in declaration order).  It returns
+//   option (go_flow State Result): go_exit st = the loop ended (condition false, or break) in
+//   state st; go_ret r = a return statement ran; None = Go panics inside the loop OR THE FUEL RAN
+//   OUT.  The fuel is
+//     - S (Z.to_nat (b - a)) [+1 for <=] for `for i := a; i < b; i++` (and the mirrored i-- forms)
+//       whose body assigns neither i nor anything b reads: provably enough, never exhausted;
+//     - S (len xs) for `for i := range xs`; none at all for `for _, x := range xs` / `for i, x :=
+//       range xs` (structural recursion over the list; xs is evaluated once, as in Go);
+//     - for every other loop, the measure stated for it in gotrans_apply.go (gtCfg.fuel: a Go
+//       expression over what is in scope at the loop, meaning "iterations + 1 at most").  A
+//       measure that is too small makes the translation answer None where Go goes on; a lemma
+//       `model = Some ...` about the function therefore also proves the measure sufficient, and
+//       where a lemma states None it says which of the two it is.
+//   Range over the runes of a string is not in the subset.
+//
+// STATE
+//   Go's effects on data the caller can see become results.  A function's changed state is
+//     - the fields it assigns of a struct parameter passed by pointer (a method's receiver),
+//     - a slice / map parameter whose ELEMENTS it assigns (by value or by pointer: the elements
+//       are shared with the caller either way), or that it assigns through a pointer (*s = e),
+//     - whatever the methods it calls on those change,
+//   in parameter order, fields in field order; the translated function returns
+//   (changed state ..., results ...).  A call of such a function is accepted as a statement or
+//   as the whole right-hand side of an assignment / declaration, and rebinds the caller's names.
+//   Maps are association lists: m[k] = v replaces the first entry for k or appends one
+//   (go_map_set_*); only lookups observe a map, so the order is not observable.  A struct that
+//   is an element of a slice or map is the tuple of its fields (all must be in the subset).
+//   VALUE SEMANTICS, and what is refused to keep it faithful: the translation treats slices and
+//   maps as values.  That is Go's behaviour as long as no two names reach the same backing
+//   store while one of them is assigned through.  Therefore: `&x` and function literals are
+//   refused; in a function that assigns elements, a local variable of slice / map type must be
+//   fresh (make, a literal, append); a parameter may not be both reassigned and have its elements
+//   assigned.  NOT checked (part of the trusted reading): that two parameters of one call do not
+//   alias each other, and that append's possible reuse of the backing array is not observed
+//   through an older slice.  s[lo:hi] on a slice answers None beyond len (Go allows up to cap,
+//   which is not modelled).
 
 import (
 	"fmt"
@@ -96,6 +151,7 @@ type gtype struct {
 	elem, key *gtype
 	fields    []gfield
 	valueKind int    // for the concrete data types Undefined ... Map: index in valueKinds, else -1
+	isErr     bool   // the predeclared type error, as a bool: "is not nil" (what the error says is not modelled)
 	ndir      string // named type of /repo: its package directory ...
 	nname     string // ... and its name (methods are looked up under it)
 }
@@ -106,6 +162,7 @@ var (
 	tBytes  = &gtype{kind: kString, name: "[]byte", valueKind: -1}
 	tValue  = &gtype{kind: kValue, name: "data.Value", valueKind: -1}
 	tUInt   = &gtype{kind: kInt, name: "untyped int", bits: 0, signed: true, untyped: true, valueKind: -1}
+	tErr    = &gtype{kind: kBool, name: "error", valueKind: -1, isErr: true}
 )
 
 func intType(name string, bits int, signed bool) *gtype {
@@ -133,8 +190,34 @@ func (t *gtype) coq() string {
 		return "list (" + t.key.coq() + " * " + t.elem.coq() + ")"
 	case kValue:
 		return "V"
+	case kStruct:
+		// a struct as a value (an element of a slice or map): the tuple of its fields, in field order
+		var fs []string
+		for _, fl := range t.fields {
+			fs = append(fs, paren(fl.typ.coq()))
+		}
+		if len(fs) == 0 {
+			return "unit"
+		}
+		return strings.Join(fs, " * ")
 	}
 	return "UNSUPPORTED"
+}
+
+// storable: a type whose values can be elements of slices and maps: a supported type, or a struct of such fields.
+func (t *gtype) storable() bool {
+	if t.kind == kStruct {
+		if len(t.fields) == 0 {
+			return false
+		}
+		for _, fl := range t.fields {
+			if !fl.typ.supported() {
+				return false
+			}
+		}
+		return true
+	}
+	return t.supported()
 }
 
 func paren(s string) string {
@@ -149,9 +232,9 @@ func (t *gtype) supported() bool {
 	case kBool, kInt, kString, kValue:
 		return true
 	case kSlice:
-		return t.elem.supported()
+		return t.elem.storable()
 	case kMap:
-		return t.key.supported() && t.elem.supported() && (t.key.kind == kInt || t.key.kind == kString)
+		return t.key.supported() && t.elem.storable() && (t.key.kind == kInt || t.key.kind == kString)
 	}
 	return false
 }
@@ -164,6 +247,12 @@ func (t *gtype) usesValue() bool {
 		return t.elem.usesValue()
 	case kMap:
 		return t.elem.usesValue()
+	case kStruct:
+		for _, fl := range t.fields {
+			if fl.typ.kind != kStruct && fl.typ.usesValue() {
+				return true
+			}
+		}
 	}
 	return false
 }
@@ -355,6 +444,10 @@ func (g *gen) resolveType(p *gpkg, f *ast.File, e ast.Expr, depth int) *gtype {
 			return tBool
 		case "string":
 			return tString
+		case "error":
+			if _, shadowed := p.types["error"]; !shadowed {
+				return tErr
+			}
 		}
 		if t, ok := basicInts[x.Name]; ok {
 			return t
@@ -395,8 +488,8 @@ func (g *gen) resolveType(p *gpkg, f *ast.File, e ast.Expr, depth int) *gtype {
 		}
 	case *ast.StarExpr:
 		t := g.resolveType(p, f, x.X, depth+1)
-		if t.kind == kStruct {
-			return t // a pointer to a struct that is only read
+		if t.kind == kStruct || ((t.kind == kSlice || t.kind == kMap) && t.nname != "") {
+			return t // a pointer to a struct, or to a named slice / map type (a receiver): the pointee
 		}
 		return &gtype{kind: kOther, name: "*" + t.name, valueKind: -1}
 	case *ast.ArrayType:
